@@ -438,7 +438,17 @@ func norm(v ssa.Value, depth int, seen map[ssa.Value]bool) string {
 	case *ssa.MakeChan:
 		return "makechan:" + x.Name()
 	case *ssa.Slice:
-		return norm(x.X, d, seen) + "[:]"
+		lo, hi := "", ""
+		if x.Low != nil {
+			lo = norm(x.Low, d, seen)
+			if lo == "0" {
+				lo = ""
+			}
+		}
+		if x.High != nil {
+			hi = norm(x.High, d, seen)
+		}
+		return norm(x.X, d, seen) + "[" + lo + ":" + hi + "]"
 	case *ssa.Range:
 		return "range(" + norm(x.X, d, seen) + ")"
 	case *ssa.Next:
